@@ -73,3 +73,20 @@ Proof.
   { induction before as [|e before IH]; cbn [app map_p]; [now rewrite Hpc|now rewrite IH]. }
   now rewrite Hm.
 Qed.
+
+(* the model reads an expression mapping, and the mapping of one property's constraints, ONLY under the keys the Go parser
+   looks up (SharedRef.ref_parser_*_key_order, tied to the source by C15_tie_parser_order) *)
+From ACV Require Import Model.SharedRef.
+Theorem expr_body_reads_only ctx rec y y' :
+  (forall k, In k ref_parser_expression_key_order -> yget k y = yget k y') -> expr_body ctx rec y = expr_body ctx rec y'.
+Proof.
+  intros H. unfold expr_body, present.
+  rewrite !H by (unfold ref_parser_expression_key_order; simpl; tauto). reflexivity.
+Qed.
+Theorem parse_pc_reads_only ctx rec path c c' :
+  (forall k, In k ref_parser_constraint_key_order -> yget k (YMap c) = yget k (YMap c')) ->
+  parse_pc ctx rec (path, YMap c) = parse_pc ctx rec (path, YMap c').
+Proof.
+  intros H. unfold parse_pc, pc_unsupported, pc_counts, pc_pattern, pc_scalar_set, pc_cmp, pc_qualified, pc_num, pc_datatype, pc_nested, present, count_atom.
+  rewrite !H by (unfold ref_parser_constraint_key_order; simpl; tauto). reflexivity.
+Qed.
